@@ -104,6 +104,45 @@ def shape_wire(s):
     return "x".join(str(int(n)) for n in s)
 
 
+REDUCING = {"numpy.prod": "a"}  # functions whose reference degree is "number of elements combined per result element"
+
+
+def measured_reduced(r):
+    """the number of elements of the operand combined into each result element, MEASURED on the real kernel: the same
+    call on bare arrays of twos (scalar operands 1) returns 2**k.  '' when not applicable / not uniform."""
+    import math
+
+    import numpy as np
+
+    import npcatalog as C
+
+    p = REDUCING.get(r["func"])
+    if p is None or r["outcome"] != "ok":
+        return ""
+    tid, dk, sc, seed, _om = r["case"]
+    t = [t for t in C.templates() if t.tid == tid][0]
+    call = t.instantiate(dk, sc, seed)
+
+    def wrap(op):
+        d = op.data
+        if op.role == "out":
+            return np.zeros(np.shape(d), dtype=np.float64)
+        if isinstance(d, np.ndarray):
+            return np.full(d.shape, 2.0)
+        return 1.0
+
+    args, kwargs, _ = call.materialize(wrap)
+    kwargs.pop("dtype", None)
+    try:
+        res = np.asarray(t.invoke(args, kwargs), dtype=np.float64)
+    except Exception:  # noqa: BLE001
+        return ""
+    ks = {round(math.log2(v)) if v > 0 else None for v in res.ravel().tolist()} if res.size else set()
+    if len(ks) != 1 or None in ks:
+        return ""
+    return f"{p}={next(iter(ks))}"
+
+
 def predict_lines(recs):
     import c07_probe as P
 
@@ -115,7 +154,8 @@ def predict_lines(recs):
         shapes = ";".join(f"{n}={shape_wire(s)}" for n, s in r["shapes"].items())
         scales = ";".join(f"{g}={core.f2b(v)}" for g, v in (("0", P.PRIMES[0]), ("1", P.PRIMES[1]), ("2", P.PRIMES[2]), ("out", 11.0)))
         lines.append("\t".join(["c07.predict", r["func"], r["variant"], r["out_mode"], ops, flags,
-                                "ok" if r["outcome"] == "ok" else "raise", str(len(r["leaves"])), sizes, shapes, scales]))
+                                "ok" if r["outcome"] == "ok" else "raise", str(len(r["leaves"])), sizes, shapes, scales,
+                                measured_reduced(r)]))
     return lines
 
 
@@ -228,6 +268,7 @@ def run(tier, seed):
     nps = 2 if tier == "quick" else 6
     pseeds = [100 + seed * 13 + i for i in range(nps)]
     suspects = set()
+    excl_funcs = {e.split("|")[0] for e in known_excl}  # functions with a recorded rule ≠ reference defect
     if model is not None:
         recs = probe_pass(pseeds)
         try:
@@ -265,6 +306,28 @@ def run(tier, seed):
                     chk.disagree("c07.predict", f"{where} leaf {i}: model carries={car} label {lab and pm}; observed carries={lf['carries']} "
                                                 f"units {lf.get('units')} base_value {lf.get('base_value')}")
                     suspects.add(r["func"])
+            # the hand-written reference, evaluated by the model in the same environment, against the library;
+            # and the hypothesis of C07_partial_all_shapes (EnvValidFor) in the environment the driver built
+            if len(rp) > 4 and rp[4] != "-" and r["func"] not in excl_funcs:
+                for i, (item, lf) in enumerate(zip(rp[4].split(" "), r["leaves"])):
+                    body, _, valid = item.rpartition("|")
+                    chk.count("model:c07.reference")
+                    if valid != "1":
+                        chk.disagree("c07.reference", f"{where} leaf {i}: the measured number of combined elements is not size // result.size (EnvValidFor fails)")
+                        suspects.add(r["func"])
+                    ob = observed_label(lf["expo"]) or {}
+                    if body == "u":
+                        want = {}
+                    else:
+                        from fractions import Fraction
+                        want = {x.rsplit(":", 1)[0]: x.rsplit(":", 1)[1] for x in body.split(";") if x}
+                        try:
+                            want = {g: Fraction(q) for g, q in want.items()}
+                        except ValueError:
+                            want = None
+                    if want is None or want != {g: q for g, q in ob.items() if g in ("0", "1", "2")} or any(g not in ("0", "1", "2") for g in ob):
+                        chk.disagree("c07.reference", f"{where} leaf {i}: reference degrees {body!r} but the library attached {lf.get('units')}")
+                        suspects.add(r["func"])
             if r["out_label"] is not None or (len(rp) > 3 and rp[3] != "-"):
                 pm = parse_label(rp[3]) if len(rp) > 3 else None
                 ob = observed_label(r["out_label"])
@@ -357,4 +420,18 @@ def run(tier, seed):
             "{float64,complex128 (int64 where nothing else applies)} × unit modes {power-of-four custom registry (bit for bit), ordinary units (1e-9)} × "
             "re-expressed group {0,1,2,all} × seeded data; distinct = (template, shape, dtype, out mode, unit mode, group) on which both runs returned "
             "(so the results were compared), plus distinct handled call forms whose predicted unit label was compared with the real handler's")
-    return chk.finish(rule)
+    rc = chk.finish(rule)
+    if os.path.abspath(core.REPO) != "/repo":
+        restore_generated()
+    return rc
+
+
+def restore_generated():
+    """a run against a scratch copy (UNYT_REPO) has rewritten lean/UnytModel/Generated from that copy: regenerate the
+    tables from /repo and rebuild this check's targets, so that the tree is never left in a mutant's state"""
+    import subprocess
+
+    env = dict(os.environ, UNYT_REPO="/repo")
+    subprocess.run([core.PY, os.path.join(core.VERIF, "tools", "extract_tables.py"), "--only", "c06,c07"], env=env,
+                   capture_output=True, text=True)
+    core.lake_build(PROOF_MODULES + ["drv_c07"])
